@@ -1,6 +1,34 @@
 (* Props/C35.v — property theorems only. *)
 From Verif Require Import Base.Str Shfmt.Fs Proofs.FsProofs.
 
+(* Soundness of the protocol checker that is run on the system-call trace of the real shfmt -w.
+   For EVERY admissible initial state (well-formed; the target name shows a regular file with bytes [orig]
+   and permission bits [mode]; no descriptor already open for writing refers to it) and EVERY trace the
+   checker accepts:
+   - at EVERY crash point k (the state left by the first k calls of the trace) the target name shows a regular
+     file with exactly the original or exactly the new bytes, and the original permission bits;
+   - after the full trace no directory entry other than the target refers to an inode created during the run
+     (no temporary file is left behind). *)
+Theorem C35_checker_sound : forall target mode new orig s0 t,
+  init_ok s0 target (mkInode orig mode Regular) ->
+  atomic_replace_ok target mode new t = true ->
+  (forall k s, crash k t s0 = Some s ->
+     exists b, look s target = Some (mkInode b mode Regular) /\ (b = orig \/ b = new)) /\
+  (forall s, run t s0 = Some s -> forall n j, dir s n = Some j -> next s0 <= j -> n = target).
+Proof. exact checker_sound. Qed.
+Print Assumptions C35_checker_sound.
+
+(* A target that must not be replaced (symlink, FIFO, any kind of inode record I0): a trace accepted by
+   untouched_ok leaves the entry showing the very same record (bytes or link text, mode, kind) at every crash
+   point, and leaves no created file behind. *)
+Theorem C35_nonregular_refused : forall target I0 s0 t,
+  init_ok s0 target I0 ->
+  untouched_ok target t = true ->
+  (forall k s, crash k t s0 = Some s -> look s target = Some I0) /\
+  (forall s, run t s0 = Some s -> forall n j, dir s n = Some j -> next s0 <= j -> n = target).
+Proof. exact nonregular_refused. Qed.
+Print Assumptions C35_nonregular_refused.
+
 (* non-vacuity, negative side: an in-place open(O_TRUNC)+write history is rejected by the checker,
    and it really has a crash point at which the target holds partial contents *)
 Theorem C35_truncate_write_refuted :
@@ -12,7 +40,14 @@ Theorem C35_truncate_write_refuted :
 Proof. exact (conj ex_bad_rejected ex_bad_partial). Qed.
 Print Assumptions C35_truncate_write_refuted.
 
-(* non-vacuity, positive side: the renameio history is accepted and is a real history of a state *)
-Example C35_renameio_trace_accepted : atomic_replace_ok ex_target 493 ex_new ex_good = true.
-Proof. exact ex_good_accepted. Qed.
+(* non-vacuity, positive side: the renameio history (as decoded from strace) is accepted, its initial state is
+   admissible, and it is a real history of that state ending with the new file and no temporary entry *)
+Example C35_renameio_trace_accepted :
+  init_ok ex_s0 ex_target (mkInode ex_orig 493 Regular) /\
+  atomic_replace_ok ex_target 493 ex_new ex_good = true /\
+  match run ex_good ex_s0 with
+  | Some s => look_is s ex_target (mkInode ex_new 493 Regular) && negb (is_some (dir s ex_tmp))
+  | None => false
+  end = true.
+Proof. exact (conj ex_init_ok (conj ex_good_accepted ex_good_runs)). Qed.
 Print Assumptions C35_renameio_trace_accepted.
